@@ -117,11 +117,22 @@ class Canon:
             if k not in self.params and k not in self.loopnames:
                 self.multi_first.setdefault(k, v)
         self._busy: Set[str] = set()
+        self._names: Dict[str, str] = {}
         # parameters bound to caller expressions (delegated guards are expressed in the caller's vocabulary)
         for k, v in self.bindings.items():
             if counts.get(k, 0) == 0:
                 self.single[k] = v
         self._cache: Dict[str, str] = {}
+
+    def _mentions(self, d: ast.AST, name: str, depth: int = 3) -> bool:
+        """d reads `name`, directly or through single-assignment locals (x = f(name); y = g(x)  =>  y mentions name)."""
+        for x in ast.walk(d):
+            if isinstance(x, ast.Name) and isinstance(x.ctx, ast.Load):
+                if x.id == name:
+                    return True
+                if depth > 0 and x.id in self.single and self._mentions(self.single[x.id], name, depth - 1):
+                    return True
+        return False
 
     def push_loop(self, target, it) -> None:
         self._loopstack.append(dict(self.loopvars))
@@ -152,6 +163,14 @@ class Canon:
         if fn == "range" and isinstance(target, ast.Name) and it.args:
             stop = it.args[-1] if len(it.args) <= 2 else None
             lo = it.args[0] if len(it.args) == 2 else None
+            if isinstance(stop, ast.Name):
+                # n = len(X); for i in range(n)
+                d_ = self.single.get(stop.id)
+                if d_ is None:
+                    base_defs = [d for d in self.multi_defs.get(stop.id, []) if not self._mentions(d, stop.id)]
+                    d_ = base_defs[0] if len({ast.unparse(x) for x in base_defs}) == 1 else None
+                if d_ is not None:
+                    stop = d_
             if stop is not None and (lo is None or const(lo) == 0):
                 sized = None
                 if isinstance(stop, ast.Call) and (dotted(stop.func) or "") in ("len",) and stop.args:
@@ -189,26 +208,30 @@ class Canon:
                         return ast.Name(id=f"loopvar{canon.loop_order[n.id]}", ctx=ast.Load())
                     if n.id in canon.single and depth < 4:
                         return canon._inline(copy.deepcopy(canon.single[n.id]), depth + 1)
+                    if n.id in canon.multi_first and n.id not in canon._busy and n.id in canon._names:
+                        return ast.Name(id=canon._names[n.id], ctx=ast.Load())      # one text per local, whatever the nesting of its use
                     if n.id in canon.multi_first and n.id not in canon._busy:
+                        d0 = 1          # a fixed depth: the name of a local does not depend on where it is used
                         canon._busy.add(n.id)
                         try:
-                            alts = sorted({strip_locals(ast.unparse(canon._inline(copy.deepcopy(d), depth + 2)))[:60]
+                            alts = sorted({strip_locals(ast.unparse(canon._inline(copy.deepcopy(d), d0 + 2)))[:60]
                                            for d in canon.multi_defs.get(n.id, [canon.multi_first[n.id]])
-                                           if not any(isinstance(x, ast.Name) and x.id == n.id for x in ast.walk(d))} or
-                                          {strip_locals(ast.unparse(canon._inline(copy.deepcopy(canon.multi_first[n.id]), depth + 2)))[:60]})
+                                           if not canon._mentions(d, n.id)} or
+                                          {strip_locals(ast.unparse(canon._inline(copy.deepcopy(canon.multi_first[n.id]), d0 + 2)))[:60]})
                         finally:
                             canon._busy.discard(n.id)
                         # named after ALL its (non-self-referential) definitions, in sorted order: re-ordering branches or dropping a
                         # re-binding that only wraps the value does not change the name; with a single such definition the local
                         # reads like that definition itself (x = e; if c: x = (x,)  ~  x = e)
-                        base_defs = [d for d in canon.multi_defs.get(n.id, []) if not any(isinstance(x, ast.Name) and x.id == n.id for x in ast.walk(d))]
-                        if len(base_defs) == 1 and len(alts) == 1 and depth < 3 and n.id not in canon.with_defs:
+                        base_defs = [d for d in canon.multi_defs.get(n.id, []) if not canon._mentions(d, n.id)]
+                        if len({ast.unparse(x) for x in base_defs}) == 1 and len(alts) == 1 and d0 < 3 and n.id not in canon.with_defs:
                             canon._busy.add(n.id)
                             try:
-                                return canon._inline(copy.deepcopy(base_defs[0]), depth + 1)
+                                return canon._inline(copy.deepcopy(base_defs[0]), d0 + 1)
                             finally:
                                 canon._busy.discard(n.id)
-                        return ast.Name(id="local<" + " | ".join(alts[:3]) + ">", ctx=ast.Load())
+                        canon._names[n.id] = "local<" + " | ".join(alts[:3]) + ">"
+                        return ast.Name(id=canon._names[n.id], ctx=ast.Load())
                 return n
 
             def visit_Subscript(self, n):
